@@ -89,6 +89,11 @@ type FuncContract struct {
 	Key      string
 	File     string
 	Requires []Clause
+	// RepInv: representation invariant of the receiver's package-private state: assumed at root entry, asserted at
+	// call sites inside the declaring package, not demanded from callers in other packages (see calls_ops.go)
+	RepInv   []Clause
+	// Doms: static control-flow clauses "dominated [tag] Y#n by X#m" (see dom_ops.go)
+	Doms []DomClause
 	Ensures  []Clause
 	Loops    map[int]*LoopContract
 	Nullable map[string]bool
@@ -157,6 +162,7 @@ var clauseKeywords = map[string]bool{
 	"inv": true, "opaque": true, "havoc": true, "noinline": true, "bounded": true, "returns_fresh": true,
 	"sweep": true, "cover": true, "replay_hint": true, "never_writes": true, "frame_only": true, "reveal": true, "iface_calls_only": true, "direct_calls_only": true,
 	"requires_held": true, "never_calls": true, "spawn_never_writes": true, "unshared_receiver": true, "sync": true, "owner_lock": true, "complete": true,
+	"rep_invariant": true, "dominated": true, "writes_unconditionally": true, "deterministic": true,
 }
 
 // ParseContractFile reads one file and adds its declarations to cs. pkgKey is
@@ -375,6 +381,18 @@ func (cs *ContractSet) ParseContractFile(path string, pkgPath string) error {
 					return err
 				}
 				cur.Requires = append(cur.Requires, c)
+			case "dominated":
+				dc, err := parseDomClause(rest)
+				if err != nil {
+					return fmt.Errorf("%s:%d: %v", path, l.no, err)
+				}
+				cur.Doms = append(cur.Doms, dc)
+			case "rep_invariant":
+				c, err := mkClause(rest)
+				if err != nil {
+					return err
+				}
+				cur.RepInv = append(cur.RepInv, c)
 			case "ensures":
 				c, err := mkClause(rest)
 				if err != nil {
@@ -457,6 +475,9 @@ func (cs *ContractSet) ParseContractFile(path string, pkgPath string) error {
 					if t := strings.Trim(strings.TrimSpace(r3), "[]"); t != "" {
 						ac.Clause.Tag = t
 					}
+				case "havoc":
+					// at callee#n havoc: at this call site only, do not inline the (first-party) callee: havoc its
+					// write set and take an arbitrary result (sound over-approximation; see calls_ops.go)
 				default:
 					return fmt.Errorf("%s:%d: unknown at-kind %q", path, l.no, w)
 				}
